@@ -36,7 +36,7 @@ def strip_ts(b):
 # ---------------------------------------------------------------------------- C11
 
 def c11(rng, tier, repo):
-    """histories of <= N rounds of file operations with controlled mtimes on two copies (incremental vs full), per TZ"""
+    """histories of <= N rounds of file operations with controlled mtimes on two copies (incremental vs full), per TZ; a Manifest whose TIMESTAMP lies in the future"""
     viol, n, distinct, samples = [], 0, 0, []
     rounds = 3 if tier == 'quick' else 4
     histories = 12 if tier == 'quick' else 150
@@ -277,7 +277,7 @@ def policy_dirs(root, cats, pkgs):
 
 
 def c19(rng, tier, repo):
-    """generated ebuild-repository trees x the three profiles x overrides: Manifest placement, default IGNOREs, entry types, options, plain verify"""
+    """generated ebuild-repository trees (by turns: plain, empty standard directories, a former package directory without ebuild) x the three profiles x ascending / descending directory listings x overrides: Manifest placement, default IGNOREs, entry types, options, plain verify, coverage oracle, update after an edit"""
     C.add_repo(repo)
     viol, n, distinct, samples = [], 0, 0, []
     for i in range(8 if tier == 'quick' else 120):
@@ -407,7 +407,7 @@ def c19(rng, tier, repo):
 
 
 def c20(rng, tier, repo):
-    """fast generator scripts on generated repositories (portable names), then gemato verify / update -p ebuild / edits"""
+    """fast generator scripts on generated repositories (portable names) + eight variants (Manifest-like name, timestamp outside metadata/, nested files/, category without packages, package without ebuild, large files, dot-directories), then gemato verify / coverage oracle / update -p ebuild as a no-op / edits"""
     C.add_repo(repo)
     viol, n, distinct, samples = [], 0, 0, []
     utils = os.path.join(repo, 'utils')
